@@ -145,8 +145,59 @@ def translate(rs, Em, src, name, cfg, pre=None):
     return "Definition %s %s : %s :=\n  %s." % (name, " ".join(binders), cfg['ret'], s), vals, n_svg
 
 
+IMG_REL = 'crates/usvg/src/parser/image.rs'
+
+
+def gen_image(api):
+    """Gen/LeafImage.v: the placement arithmetic of image.rs convert_inner (image_ts, bounding box, slice clip)."""
+    rs = api.rs2coq
+    src = api.rd(IMG_REL)
+    params, ret, body = rs.find_fn(src, 'convert_inner')
+    nb = re.sub(r"//[^\n]*", "", body)
+    nb = re.sub(r"\s+", " ", nb)
+    m = re.match(r"\{ (let aligned_size = .*?let image_ts = Transform::from_row\(.*?\); )let abs_transform = parent\.abs_transform\.pre_concat\(image_ts\); "
+                 r"let abs_bounding_box = (actual_size .*?\.transform\(abs_transform\))\?; ", nb)
+    if not m:
+        raise api.Unsupported("convert_inner: the placement prefix (aligned_size .. image_ts, abs_transform, abs_bounding_box) has an unexpected shape")
+    prefix, bbox_e = m.group(1), m.group(2)
+    mc = re.search(r"if aspect\.slice \{ let mut path = Path::new_simple\(Arc::new\(tiny_skia_path::PathBuilder::from_rect\( (.+?), \)\)\) \.unwrap\(\);", nb)
+    if not mc:
+        raise api.Unsupported("convert_inner: the `if aspect.slice { .. PathBuilder::from_rect(..) }` clip not found")
+    if len(re.findall(r"PathBuilder::from_rect\(", nb)) != 1 or len(re.findall(r"aspect\.slice", nb)) != 1:
+        raise api.Unsupported("convert_inner: more than one clip rectangle / slice test")
+    if not re.search(r"g\.transform = image_ts; g\.abs_transform = abs_transform;", nb):
+        raise api.Unsupported("convert_inner: the image group must carry `image_ts` / `abs_transform`")
+    if not re.search(r"Node::Image\(Box::new\(Image \{ id: String::new\(\), visible, size: actual_size, rendering_mode, kind, abs_transform, abs_bounding_box, \}\)\)", nb):
+        raise api.Unsupported("convert_inner: unexpected Image literal")
+    cfg = dict(dom='Q', fields={'align': 'ar_align', 'slice': 'ar_slice'},
+               methods={'width': 'g_width', 'height': 'g_height', 'x': 'rx', 'y': 'ry', 'to_non_zero_rect': 'size_to_rect',
+                        'pre_concat': 'ts_concat', 'transform': 'rect_transform', 'to_rect': None},
+               calls={'crate::aligned_pos': 'aligned_pos', 'aligned_pos': 'aligned_pos', 'Transform::from_row': 'from_row',
+                      'fit_view_box': 'fit_view_box', 'Some': 'Some'}, paths={'None': 'None'})
+
+    def tr(text):
+        return rs.Emitter(dict(cfg)).block(rs.parse_body(text))
+    d_ts = tr("{ " + prefix + " image_ts }")
+    d_bb = tr("{ " + prefix + " let abs_transform = parent_ts.pre_concat(image_ts); " + bbox_e + " }")
+    d_cl = tr("{ " + prefix + " if aspect.slice { Some(" + mc.group(1) + ") } else { no_clip() } }".replace("no_clip()", "no_clip"))
+    out = [api.HEADER, "From RV Require Import Model.Base Model.GeomPrims Gen.Units Model.SvgSize Gen.PctAxis Model.ViewportPrims Gen.LeafViewBox.",
+           "Local Open Scope Q_scope.\n",
+           "(* %s :: convert_inner, `image_ts`: the transform of the group that holds the image *)" % IMG_REL,
+           "Definition image_ts_gen (actual_size : qsize) (rect : qrect) (aspect : aspect) : ts :=\n  %s.\n" % d_ts,
+           "(* %s :: convert_inner, `abs_bounding_box` of the image node (parent_ts = parent.abs_transform) *)" % IMG_REL,
+           "Definition image_bbox_gen (actual_size : qsize) (rect : qrect) (aspect : aspect) (parent_ts : ts) : option qrect :=\n  %s.\n" % d_bb,
+           "(* %s :: convert_inner, the rectangle of the clip path made for preserveAspectRatio=.. slice *)" % IMG_REL,
+           "Definition image_clip_gen (actual_size : qsize) (rect : qrect) (aspect : aspect) : option qrect :=\n  %s.\n" % d_cl]
+    api.write_gen('LeafImage.v', "\n".join(out))
+    api.ok('leaves', 'image_placement', fns=3)
+
+
 def generate(api):
     rs = api.rs2coq
+    try:
+        gen_image(api)
+    except (api.Unsupported, OSError, ValueError, IndexError, KeyError) as e:
+        api.broken('leaf', 'image.placement', PROPS, e)
     try:
         aids = gen_pct_axis(api)
     except (api.Unsupported, OSError, ValueError, IndexError) as e:
